@@ -254,6 +254,7 @@ def check(plan, ctx):
         if not bool(np.asarray(w.is_na())[0]):
             raise Violation("a vector cast to its na_dtype cannot hold its na_value as missing", dtype=str(v.dtype),
                             na_dtype=str(v.na_dtype), na_value=repr(v.na_value), stored=repr(np.asarray(w)[0]))
+    _after_in_place_edit(v, exp_na, ctx)
     dn = ctx.call("drop_na", v.drop_na)
     want = [c for c, m in zip(build.cells(np.asarray(v)), exp_na) if not m]
     if build.cells(np.asarray(dn)) != want and not (len(want) == 0 and len(dn) == 0):
@@ -274,6 +275,35 @@ def check(plan, ctx):
                     raise Violation("replace_na changed a non-missing position", index=j, got=a[j], want=b[j])
             if [bool(x) for x in np.asarray(v.is_na())] != exp_na:
                 raise Violation("replace_na changed its receiver")
+
+
+def _after_in_place_edit(v, exp_na, ctx):
+    """is_na / tolist / drop_na must describe the vector as it is now, not as it was when first asked."""
+    if len(v) == 0 or v.dtype.kind in "iub":
+        return
+    w = v.copy()
+    w.is_na(); w.tolist()                       # anything cached would be cached now
+    full = [j for j, m in enumerate(exp_na) if not m]
+    miss = [j for j, m in enumerate(exp_na) if m]
+    want = list(exp_na)
+    try:
+        if full:
+            w[full[-1]] = w.na_value
+            want[full[-1]] = True
+        if miss and full:
+            w[miss[0]] = np.asarray(v)[full[0]]
+            want[miss[0]] = False
+    except Exception:
+        return
+    got = [bool(x) for x in np.asarray(w.is_na())]
+    if got != want:
+        raise Violation("is_na does not reflect an in-place edit made after an earlier is_na/tolist call",
+                        dtype=str(v.dtype), got=got, want=want)
+    if [x is None for x in w.tolist()] != want:
+        raise Violation("tolist does not reflect an in-place edit made after an earlier is_na/tolist call",
+                        dtype=str(v.dtype), tolist=w.tolist(), want=want)
+    if len(w.drop_na()) != want.count(False):
+        raise Violation("drop_na does not reflect an in-place edit", dtype=str(v.dtype))
 
 
 def _equivalence(v, ctx):
